@@ -11,6 +11,8 @@
 #include "../lib/vf_run.h"
 #include "../lib/vf_snap.h"
 #include <dirent.h>
+#include <sys/mman.h>
+#include <unistd.h>
 
 enum {
     CT_DOCS, CT_NODES, CT_CALLS, CT_GETTERS, CT_EQUALS_TRUE, CT_EQUALS_FALSE, CT_INTS, CT_DOUBLES, CT_LENGTHS, CT_CORPUS, CT_GENDOCS, CT_WRONGTYPE_GETTERS,
@@ -728,6 +730,57 @@ static void corpus(void)
 }
 
 static int N_DOC;
+/* giant writes (C05, thorough tier, only with >= 8 GiB of free memory): a string and a bytes value of exactly INT32_MAX and INT32_MAX - 1
+ * bytes - the largest the format allows - written from a lazily backed source into a lazily backed destination of exactly the
+ * encoded size, then verified by the parser. About 2 GiB are really copied per case. */
+static void giant_writes(void)
+{
+    if (!vf_g.thorough || !P_C05) return;
+    long pages = sysconf(_SC_AVPHYS_PAGES), psz = sysconf(_SC_PAGESIZE);
+    if (pages <= 0 || psz <= 0 || (double) pages * (double) psz < 8e9) return;
+    const size_t maxl = (size_t) INT32_MAX;
+    uint8_t *src = (uint8_t *) mmap(NULL, maxl, PROT_READ, MAP_PRIVATE | MAP_ANONYMOUS | MAP_NORESERVE, -1, 0);
+    uint8_t *dst = (uint8_t *) mmap(NULL, maxl + 64, PROT_READ | PROT_WRITE, MAP_PRIVATE | MAP_ANONYMOUS | MAP_NORESERVE, -1, 0);
+    if (src == MAP_FAILED || dst == MAP_FAILED) return;
+    for (int c = 0; c < 4; c++) {
+        size_t len = maxl - (size_t) (c & 1);
+        bool str = c >= 2;
+        size_t size = 1 + 5 + len + 1;
+        binson_writer w;
+        memset(&w, 0x77, sizeof w);
+        vf_stack_paint();
+        vf_progress++;
+        bool ok = binson_writer_init(&w, dst, size) && binson_write_array_begin(&w);
+        bool r = str ? binson_write_string_with_len(&w, (const char *) src, len) : binson_write_bytes(&w, src, len);
+        vf_progress++;
+        bool e = binson_write_array_end(&w);
+        vf_count(CT_CALLS, 4); vf_count(CT_LENGTHS, 1);
+        const uint8_t hdr[6] = { 0x42, (uint8_t) (str ? 0x16 : 0x1a), (uint8_t) len, (uint8_t) (len >> 8), (uint8_t) (len >> 16), (uint8_t) (len >> 24) };
+        const char *bad = NULL;
+        if (!ok || !r || !e || w.error_flags != BINSON_ERROR_NONE) bad = "a write call failed";
+        else if (binson_writer_get_counter(&w) != size) bad = "the counter is not the encoded size";
+        else if (memcmp(dst, hdr, 6) || dst[size - 1] != 0x43 || dst[6] != 0 || dst[size - 2] != 0) bad = "the stored bytes are not the encoding";
+        else {
+            binson_state st[2];
+            binson_parser p;
+            memset(&p, 0, sizeof p);
+            p.state = st; p.max_depth = 2;
+            vf_progress++;
+            if (!binson_parser_init_array(&p, dst, size) || !binson_parser_verify(&p)) bad = "binson_parser_verify rejects the writer's output";
+        }
+        if (bad) {
+            vf_str b = { 0 };
+            vf_str_printf(&b, "kind: giant-write\ncase: %d\nlabel: a %s of %zu bytes written into a destination of exactly the encoded size\nmismatch: %s (error %d, counter %zu)\n", c,
+                          str ? "string" : "bytes value", len, bad, (int) w.error_flags, binson_writer_get_counter(&w));
+            if (vf_g.replay) { printf("replay: %s\nVIOLATION property=%s replay=%s\n", bad, vf_g.prop, vf_g.replay); exit(VF_EXIT_VIOLATION); }
+            vf_violation("decode:write:giant", b.s);
+            vf_str_free(&b);
+        }
+        madvise(dst, maxl + 64, MADV_DONTNEED);
+    }
+    munmap(src, maxl); munmap(dst, maxl + 64);
+}
+
 static void worker(int w, int W, uint64_t start)
 {
     g_w = w; g_W = W; g_start = start; g_index = 0;
@@ -743,6 +796,7 @@ static void worker(int w, int W, uint64_t start)
     memset(longname, 'n', sizeof longname);
     shape_families();
     value_families();
+    if (w == W - 1 && start == 0) giant_writes();
     corpus();
     {   /* sibling family: every pair and triple of small sibling subtrees */
         static vf_gen gs;
@@ -764,6 +818,8 @@ static void worker(int w, int W, uint64_t start)
 static void replay_main(void)
 {
     char *t = vf_replay_load(vf_g.replay);
+    { char *kd = vf_replay_get(t, "kind");
+      if (kd && !strcmp(kd, "giant-write")) { vf_g.thorough = true; vf_g.wid = 0; giant_writes(); printf("replay: the giant writes produce the encoding\n"); exit(VF_EXIT_OK); } }
     char *root = vf_replay_get(t, "root"), *md = vf_replay_get(t, "max_depth"), *hex = vf_replay_get(t, "doc_hex");
     if (!root || !md || !hex) vf_die("replay file lacks root/max_depth/doc_hex");
     static uint8_t bytes[8192];
